@@ -925,6 +925,35 @@ def batchNorm (x : Tensor Int) (axis : Int) (useRunningAverage useFast : Bool) (
     let newVar := (List.range nf).map (fun f => emaOpt momentum (st.var.getD f none) ((statOf f).map (·.var)))
     (pieces, ⟨newMean, newVar⟩)
 
+/-! ### call-time flags (`use_running_average`, `deterministic`) -/
+
+/-- `flax.nnx.module.first_from(call_arg, self.attr)`: the first value that is not `None`; all `None` is an error.
+(`Module.eval()` / `.train()` only set the attribute.) -/
+def resolveFlag (call attr : Option Bool) : Except String Bool :=
+  match call with
+  | some b => .ok b
+  | none =>
+    match attr with
+    | some b => .ok b
+    | none => .error "NoFlag"
+
+/-- `flax.linen.module.merge_param(name, self.attr, call_arg)`: exactly one of the two must be given -/
+def mergeParam (attr call : Option Bool) : Except String Bool :=
+  match attr, call with
+  | none, some b => .ok b
+  | some b, none => .ok b
+  | _, _ => .error "MergeParam"
+
+/-- the `None`-vs-falsy slip `call_arg or self.attr` (Python `or` keeps the first *truthy* operand): an explicit `False`
+at call time is overridden by the attribute -/
+def resolveFlagOr (call attr : Option Bool) : Except String Bool :=
+  match call with
+  | some true => .ok true
+  | _ =>
+    match attr with
+    | some b => .ok b
+    | none => (match call with | some b => .ok b | none => .error "NoFlag")
+
 /-! ## 12. Dropout -/
 
 inductive DropoutOut
